@@ -252,6 +252,64 @@ func cmdC14Replay(args []string) {
 			}
 		}
 	})
+	// Agree also covers what is decided before the first node runs (the checks on the caller's context): the four entry
+	// points refuse the same calls, for templates with and without a parent, with macros exported by either
+	agreeFiles := map[string]string{
+		"/pb":     "P{% block b %}pb{% endblock %}",
+		"/pmacro": "{% macro hello() export %}ph{% endmacro %}P{% block b %}pb{% endblock %}",
+		"/mid":    `{% extends "/pb" %}{% macro hello() export %}mh{% endmacro %}`,
+	}
+	agreeSrcs := []string{
+		`{% macro hello() export %}h{% endmacro %}x{{ name }}`,
+		`{% extends "/pb" %}{% macro hello() export %}ch{% endmacro %}{% block b %}c{{ name }}{% endblock %}`,
+		`{% extends "/pmacro" %}{% block b %}c{{ name }}{% endblock %}`,
+		`{% extends "/mid" %}{% block b %}c{{ name }}{% endblock %}`,
+		`{% extends "/pb" %}{% block b %}{% macro inner() export %}i{% endmacro %}c{% endblock %}`,
+		`plain {{ name }}`,
+	}
+	agreeCtxs := map[string]pongo2.Context{
+		"clash": {"hello": "ctx"}, "clash-inner": {"inner": 1}, "bad-key": {"bad-key": 1}, "ok": {"name": "n"}, "nil": nil, "empty": {},
+	}
+	for _, src := range agreeSrcs {
+		for cname, c := range agreeCtxs {
+			for _, withGlobal := range []bool{false, true} {
+				set := pongo2.NewSet("c14a", newMemLoader("c14a", agreeFiles))
+				if withGlobal {
+					set.Globals["hello"] = "global"
+				}
+				tpl, co := compileString(set, src)
+				if co.class() != "ok" {
+					fatal("c14 agreement template does not compile:", src, co.Err)
+				}
+				rep.Checked++
+				var firstErr, firstOut string
+				for ei, entry := range []string{"Execute", "ExecuteBytes", "ExecuteWriter", "Unbuffered"} {
+					w := &faultWriter{}
+					out, err, pan := runEntry(tpl, entry, c, w)
+					if entry == "ExecuteWriter" || entry == "Unbuffered" {
+						out = w.got.String()
+					}
+					e := ""
+					if err != nil {
+						e = firstLine(err.Error())
+					}
+					if pan != "" {
+						rep.viol(fmt.Sprintf("variants: template %q context %s via %s: panic %s", src, cname, entry, firstLine(pan)), map[string]interface{}{"cmd": "c14-replay"})
+						break
+					}
+					if ei == 0 {
+						firstErr, firstOut = e, out
+						continue
+					}
+					if (e == "") != (firstErr == "") || (e == "" && out != firstOut) {
+						rep.viol(fmt.Sprintf("variants: template %q context %s (global hello: %v): Execute gives %q / %q, %s gives %q / %q", src, cname, withGlobal, firstOut, firstErr, entry, out, e),
+							map[string]interface{}{"cmd": "c14-replay"})
+						break
+					}
+				}
+			}
+		}
+	}
 	rep.Distinct = len(seen)
 	rep.emit()
 }
@@ -263,6 +321,7 @@ type progCase struct {
 	Src   string
 	Files map[string]string
 	Ctx   map[string]pongo2.Context // c1, c2, cbad
+	Want  map[string]string         // context name -> rendering known independently of any execution (optional)
 }
 
 func loadPrograms(path string) []progCase {
@@ -314,6 +373,9 @@ func variantCtx(c1 pongo2.Context, which string) pongo2.Context {
 	case "c1":
 	case "c2":
 		for k, v := range c1 {
+			if k == "anon" || k == "anons" {
+				continue
+			}
 			switch x := v.(type) {
 			case []interface{}:
 				y := append([]interface{}{}, x...)
@@ -328,6 +390,14 @@ func variantCtx(c1 pongo2.Context, which string) pongo2.Context {
 			case bool:
 				out[k] = !x
 			}
+		}
+		if _, ok := c1["anon"]; ok {
+			// another struct type with the same field names in another order (both types are anonymous: they have no name of their own)
+			out["anon"] = struct {
+				Age  int
+				Name string
+			}{7, "amy"}
+			out["anons"] = []interface{}{struct{ B, A string }{"b2", "a2"}, struct{ A, B string }{"a3", "b3"}}
 		}
 	case "cbad":
 		if _, mid := c1["boom"]; mid {
@@ -420,6 +490,17 @@ func extraPrograms() []progCase {
 			f[k] = v
 		}
 		out = append(out, progCase{Name: "midfail:" + name, Src: src, Files: f, Ctx: map[string]pongo2.Context{"c1": c}})
+	}
+	// values whose Go types differ from context to context while their field names agree
+	{
+		c := ctx()
+		c["anon"] = struct {
+			Name string
+			Age  int
+		}{"bob", 41}
+		c["anons"] = []interface{}{struct{ A, B string }{"a0", "b0"}, struct{ B, A string }{"b1", "a1"}}
+		out = append(out, progCase{Name: "types:anon", Src: "{{ anon.Name }}/{{ anon.Age }}{% for s in anons %};{{ s.A }}{{ s.B }}{% endfor %}", Files: files,
+			Ctx: map[string]pongo2.Context{"c1": c}, Want: map[string]string{"c1": "bob/41;a0b0;a1b1", "c2": "amy/7;a2b2;a3b3"}})
 	}
 	// calls: every signature shape of a context function x 0..8 written arguments, evaluated twice per execution
 	// (a compiled call's argument list belongs to the template: executing it must leave it as it was)
@@ -525,6 +606,11 @@ func cmdC04Replay(args []string) {
 						out = w.got.String()
 					}
 					want := refOf(cname)
+					if known, ok := p.Want[cname]; ok && (want.Err != "" || want.Out != known) {
+						rep.viol(fmt.Sprintf("history: program %s %q context %s: a fresh compile executed once renders %q %s, the known rendering is %q (state outside the template outlives executions)",
+							p.Name, p.Src, cname, want.Out, firstLine(want.Err), known), map[string]interface{}{"cmd": "c04-replay", "program": p.Src})
+						break
+					}
 					key := fmt.Sprintf("history: program %s %q TrimBlocks=%v LStripBlocks=%v, history %s, execution %d", p.Name, p.Src, opt[0], opt[1], strings.Join(hdesc, " "), si+1)
 					det := map[string]interface{}{"cmd": "c04-replay", "program": p.Src, "files": p.Files, "history": hdesc}
 					if pan != "" {
@@ -758,7 +844,7 @@ func cmdC05Free(args []string) {
 		// keep all registry-driven programs, sample the rest
 		var keep []progCase
 		for i, p := range progs {
-			if strings.HasPrefix(p.Name, "tag:") || strings.HasPrefix(p.Name, "filter:") || strings.HasPrefix(p.Name, "nondet:") || strings.HasPrefix(p.Name, "midfail:") || strings.HasPrefix(p.Name, "errpath:") || p.Name == "extends" || p.Name == "trim" || (i*7919+seed)%(len(progs)/maxp+1) == 0 {
+			if strings.HasPrefix(p.Name, "tag:") || strings.HasPrefix(p.Name, "filter:") || strings.HasPrefix(p.Name, "nondet:") || strings.HasPrefix(p.Name, "midfail:") || strings.HasPrefix(p.Name, "errpath:") || strings.HasPrefix(p.Name, "types:") || p.Name == "extends" || p.Name == "trim" || (i*7919+seed)%(len(progs)/maxp+1) == 0 {
 				keep = append(keep, p)
 			}
 		}
